@@ -13,7 +13,7 @@ import (
 
 func init() {
 	register("C09", propMeta{
-		Explanation: "Decides the reachability of the recovery routines from the public entry point, and that recovery finishes what it starts: (R1) typestate of the maintenance guard: every early-return guard of Transaction.onIdle reads Transaction fields; at each call site of onIdle at least one writer of each such field must be able to have executed, otherwise the guard is constant and everything behind it is dead code. The field writers, the begun-state gates of their callers (`!HasBegun()` -> error) and the gate of the calling function are derived from the code; (R2) call-graph reachability: Transaction.Begin reaches onIdle, which reaches doPriorityRollbacks, processExpiredTransactionLogs and transactionLog.rollback; (R3) recovery removes what it recovered: every exit of transactionLog.rollback for a non-nil transaction id passes TransactionLog.Remove of that id; doPriorityRollbacks and priorityRollback remove the priority log only after the registry write of the pre-images succeeded (shared with C08.R3), and the pre-images were logged before the flip (shared with C08.R2); (R4) the log replay undoes every persistent commit step in every last-logged state in which the live rollback undoes it (undo table shared with C07.R1).",
+		Explanation: "Decides the reachability of the recovery routines from the public entry point, and that recovery finishes what it starts: (R1) typestate of the maintenance guard: every early-return guard of Transaction.onIdle reads Transaction fields; at each call site of onIdle at least one writer of each such field must be able to have executed, otherwise the guard is constant and everything behind it is dead code. The field writers, the begun-state gates of their callers (`!HasBegun()` -> error) and the gate of the calling function are derived from the code; (R2) call-graph reachability: Transaction.Begin reaches onIdle, which reaches doPriorityRollbacks, processExpiredTransactionLogs and transactionLog.rollback; (R3) recovery removes what it recovered: every exit of transactionLog.rollback for a non-nil transaction id passes TransactionLog.Remove of that id; doPriorityRollbacks and priorityRollback remove the priority log only after the registry write of the pre-images succeeded (shared with C08.R3), and the pre-images were logged before the flip (shared with C08.R2); (R4) the log replay undoes every persistent commit step in every last-logged state in which the live rollback undoes it (undo table shared with C07.R1); (R5) the log reader imposes no record-size limit that the writer does not have.",
 		DoesNotCover: "Ages and timers (5 minutes / 1 hour) are runtime quantities and are not decided; nor is the content of what recovery restores beyond C08's ordering rules.",
 	}, runC09)
 }
@@ -230,6 +230,25 @@ func runC09(c *Ctx) {
 	}
 	rulePriorityRestore(c, r3)
 	rulePreImagesBeforeFlip(c, r3)
+
+	r5 := c.Rule("R5", "reader/writer agreement on the transaction log: TransactionLog.Add appends records of any size, so the recovery's reader (getLogsDetails) must not impose a record-size limit: it reads with bufio.Reader.ReadBytes/ReadString or a json.Decoder, or gives its bufio.Scanner an explicit Buffer before the first Scan", 2)
+	{
+		f := w.Fn("fs.TransactionLog.getLogsDetails")
+		g := w.G(f)
+		c.Analysed(f)
+		unlimited := len(g.Find(calls("bufio.Reader.ReadBytes", "bufio.Reader.ReadString", "encoding/json.Decoder.Decode"))) > 0
+		scans := g.Find(calls("bufio.Scanner.Scan"))
+		okScan := true
+		if len(scans) > 0 {
+			okScan = len(g.MustPrecede(calls("bufio.Scanner.Buffer"), calls("bufio.Scanner.Scan"))) == 0
+		}
+		c.Check(unlimited || (len(scans) > 0 && okScan), r5, "getLogsDetails: records are read without a built-in size limit", f.Decl.Pos(), "ReadBytes / ReadString / json.Decoder, or Scanner.Buffer before Scan",
+			"the log is read with a default bufio.Scanner (64 KiB token limit) while Add writes records of any size: the log of a transaction that touched about 1,300 nodes in one step makes GetOne fail with `token too long` on every maintenance pass, and being the oldest expired log it blocks the recovery of all younger ones", nil)
+		// the writer has no limit either way: one Encode per Add
+		fa := w.Fn("fs.TransactionLog.Add")
+		c.Analysed(fa)
+		c.Check(len(w.G(fa).Find(calls("encoding/json.Encoder.Encode"))) == 1, r5, "TransactionLog.Add: one JSON record per call", fa.Decl.Pos(), "one Encode", "writer changed shape", nil)
+	}
 
 	r4 := c.Rule("R4", "undo table: the dead-transaction log replay (transactionLog.rollback) has a `Key == step` block for every persistent commit step, the block calls the step's undo function, and the `lastCommittedFunctionLog OP K` gate of that call admits every last-logged state in which the live rollback undoes the step (shared with C07.R1)", 25)
 	commitUndoRules(c, r4, "", "", "", "")
